@@ -325,6 +325,10 @@ func c12RunDist(c *sim.Ctx) {
 			return
 		}
 		var ts []*simrt.Task
+		var rawBefore []byte
+		if len(pending) == 1 {
+			rawBefore = append([]byte(nil), w.st.data[c12key(pending[0].sub)]...)
+		}
 		for _, r := range pending {
 			w.pre(r)
 		}
@@ -338,6 +342,9 @@ func c12RunDist(c *sim.Ctx) {
 		}
 		for _, r := range pending {
 			w.afterOp(r, pending)
+		}
+		if len(pending) == 1 {
+			w.soloRules(pending[0], rawBefore)
 		}
 		wasPar := par && len(pending) > 1
 		pending, par = nil, false
@@ -549,6 +556,27 @@ func c12Gen(r *sim.Rand, tier string) *sim.Case {
 		cs.Ops = append(cs.Ops, sim.Op{K: "restart", A: []int64{0}})
 		n = r.Range(0, 4)
 	}
+	if lease && !multi && len(cs.Ops) == 0 && r.P(15) {
+		// late-caller motif, fault-free: a lease runs out in memory (its record still in the store),
+		// then its holder releases or renews after all, others take addresses, the node restarts
+		delete(cs.Knobs, "f_watch_pm")
+		delete(cs.Knobs, "f_err_pm")
+		delete(cs.Knobs, "f_crash_pm")
+		late := int64(r.N(nsub))
+		cs.Ops = append(cs.Ops, sim.Op{K: "alloc", A: []int64{0, late, 0}})
+		for k := r.Range(2, 4); k > 0; k-- {
+			cs.Ops = append(cs.Ops, sim.Op{K: "tick", A: []int64{int64(r.Range(1, 2))}})
+		}
+		cs.Ops = append(cs.Ops, sim.Op{K: sim.Pick(r, "release", "renew", "renew"), A: []int64{0, late}})
+		for k := r.Range(1, 3); k > 0; k-- {
+			cs.Ops = append(cs.Ops, sim.Op{K: "alloc", A: []int64{0, int64(r.N(nsub)), 0}})
+		}
+		if r.P(50) {
+			cs.Ops = append(cs.Ops, sim.Op{K: "tick", A: []int64{1}})
+		}
+		cs.Ops = append(cs.Ops, sim.Op{K: "restart", A: []int64{0}})
+		n = r.Range(0, 4)
+	}
 	for i := 0; i < n; i++ {
 		node := int64(r.N(nodes))
 		sub := int64(r.N(nsub))
@@ -618,7 +646,7 @@ func init() {
 			"allocator.MemoryAllocationStore MarshalJSON/UnmarshalJSON"},
 		Stub: []string{"distributed store backend (scn.c12store behind allocator.Store replaces nexus.MemoryStore/CLSet: tape-ordered Query, injectable errors, watch fan-out through scheduler tasks)",
 			"AllocationStore failure injection wrapper around the real MemoryAllocationStore"},
-		Rule:         "cases: 5-30 allocate/renew/release/tick/stop/restart/err-at/crash-at ops over <=6 subscribers, pools of 2-14 units, 1-3 nodes; crash before/after a chosen store call, Query order from the tape, watch delay/dup/reorder; overlapping (allocate|renew) vs release of one subscriber on one node, keep-alive motif over several epochs, lease grace 1 or 2 (single node), store write failures that coincide with the caller's context being cancelled; fault-free runs are swept for memory/store agreement; fault-free tail restarts every node from the store; non-trivial = >=3 completed operations and (a fault fired or >2 context switches); distinct = distinct (case hash, schedule fingerprint)",
+		Rule:         "cases: 5-30 allocate/renew/release/tick/stop/restart/err-at/crash-at ops over <=6 subscribers, pools of 2-14 units, 1-3 nodes; crash before/after a chosen store call, Query order from the tape, watch delay/dup/reorder; overlapping (allocate|renew) vs release of one subscriber on one node, keep-alive motif over several epochs, lease grace 1 or 2 (single node), store write failures that coincide with the caller's context being cancelled; fault-free runs are swept for memory/store agreement, and a call that ran alone on one node in such a run must leave no record after Release and an unchanged record after a refused Renew; late-caller motif (a lease runs out in memory, then its holder releases or renews, others allocate, restart); fault-free tail restarts every node from the store; non-trivial = >=3 completed operations and (a fault fired or >2 context switches); distinct = distinct (case hash, schedule fingerprint)",
 		QuickRuns:    20000,
 		ThoroughRuns: 600000,
 		Assumptions: []string{"the store itself is linearizable and a failed call has no effect (clean failure)", "a watcher registered by a crashed or stopped node receives nothing further",
